@@ -128,31 +128,28 @@ def _diagnose(case, ir):
     a = _bits(w[0]); b = _bits(w[1])
     ops = [] if w[2] == '-' else w[2].split(',')
 
-    def label_for(tok, nbefore, nafter=None, what=''):
+    def guard_op(tok, n):
         f = tok.split(':') if tok else ['']
-        p = int(f[1]) if len(f) > 1 else -1
-        if f[0] in ('reset', 'flip', 'idx', 'ref', 'put') and p == nbefore:
-            return 'grow-guard-pos-eq-size'
-        if f[0] == 'shra' and p > nbefore:
-            return 'shr-assign-beyond-size'
-        if nafter == 0 and 'iteration' in what:
-            return 'iterate-empty'
-        return 'other'
+        return f[0] in ('reset', 'flip', 'idx', 'ref', 'put') and int(f[1]) == n
     if ir is None:
         return 'no result from the implementation', 'other'
     if 'CRASH' in ir:
-        # which step was running is unknown: label by the first suspicious operation
-        cur = list(a)
-        for tok in ops:
-            lab = label_for(tok, len(cur))
-            if lab != 'other':
-                return 'memory error / abort in the implementation: ' + ir, lab
-            _, cur = ref_apply(cur, tok, b)
-        return 'memory error / abort in the implementation: ' + ir, 'other'
+        # which step was running is unknown; an out-of-bounds / null access in a script that
+        # addresses position == size is attributed to the guard of reset/flip/operator[]
+        lab = 'other'
+        if 'heap-buffer-overflow' in ir or 'null' in ir or 'SEGV' in ir:
+            cur = list(a)
+            for tok in ops:
+                if guard_op(tok, len(cur)):
+                    lab = 'grow-guard-pos-eq-size'
+                    break
+                _, cur = ref_apply(cur, tok, b)
+        return 'memory error / abort in the implementation: ' + ir, lab
     blocks = ir.split(' ## ')[0].replace(' ##', '').split(' ')
     if len(blocks) != len(ops) + 1:
         return 'number of result blocks differs from number of operations + 1', 'other'
     cur = list(a)
+    prev = None
     for k, blk in enumerate(blocks):
         f = blk.split(';')
         if len(f) != 9:
@@ -171,17 +168,25 @@ def _diagnose(case, ir):
                     return 'malformed size', 'other'
                 if gs <= p:
                     return ('%s at position %d >= size %d did not grow the bitset (size afterwards %d)'
-                            % (op, p, nbefore, gs)), label_for(tok, nbefore)
+                            % (op, p, nbefore, gs)), ('grow-guard-pos-eq-size' if p == nbefore else 'other')
             exp_r, cur = ref_apply(cur, tok, b, gs)
             if op == 'eq' and len(cur) != len(b):
                 exp_r = f[0]          # not claimed for different sizes
             if f[0] != exp_r:
-                return ('%s: result %s, reference %s' % (tok, f[0], exp_r)), label_for(tok, nbefore)
+                return ('%s: result %s, reference %s' % (tok, f[0], exp_r)), \
+                    ('grow-guard-pos-eq-size' if op == 'idx' and p == nbefore and exp_r.startswith('E:') else 'other')
         exp = ref_observers(cur)
         for name, got, want in zip(OBS_NAMES, f[1:], exp):
             if got != want:
+                lab = 'other'
+                if len(cur) == 0 and 'iteration' in name and got.startswith('E:out_of_range'):
+                    lab = 'iterate-empty'
+                elif (k > 0 and tok.startswith('shra:') and int(tok.split(':')[1]) > nbefore
+                      and name == 'to_string' and prev is not None and got == prev[2]):
+                    lab = 'shr-assign-beyond-size'
                 return ('after %s: %s is %s, reference bit vector %s has %s'
-                        % (tok or 'construction', name, got, _str(cur), want)), label_for(tok, nbefore, len(cur), name)
+                        % (tok or 'construction', name, got, _str(cur), want)), lab
+        prev = f
     return None
 
 
